@@ -1,7 +1,7 @@
-\* quick: every transition of the working tree's state graph over 5 keys -- all reachable AVL
+\* quick: every transition of the working tree's state graph over 6 keys -- all reachable AVL
 \* shapes, hence every rotation case of insert and remove -- and every observer instance
 \* (all range bounds, both directions, inclusive / exclusive) on every shape
-CONSTANTS NK = 5  NV = 1  MaxVersion = 0  WithDelete = FALSE  WithOverwrite = FALSE
+CONSTANTS NK = 6  NV = 1  MaxVersion = 0  WithDelete = FALSE  WithOverwrite = FALSE
           RecordHist = TRUE  KeepStates = FALSE  SimDepth = 0  CoverDepth = 100  ObsCover = TRUE  RangeCover = TRUE
 INIT Init
 NEXT NextCover
